@@ -374,7 +374,7 @@ RF_OBJ = {"apiVersion": "verif.koreo.dev/v1", "kind": "Gadget", "metadata": {"na
           "spec": {"x": 6}}
 
 
-def run_rf(pre, post, crud, tracer, lookup="notNeeded", schedule=("orig",)):
+def run_rf(pre, post, crud, tracer, lookup="notNeeded", schedule=("orig",), has_return=True):
     """`lookup`: notNeeded (apiConfig.plural given) | found | unknownKind — the two latter use a kind kr8s
     does not know, no `plural`, and a cold plural cache, so the first thing `reconcile_krm_resource` does
     after evaluating apiConfig is a discovery request (`api.lookup_kind`, logged as method LOOKUP)"""
@@ -394,6 +394,8 @@ def run_rf(pre, post, crud, tracer, lookup="notNeeded", schedule=("orig",)):
         del spec["apiConfig"]["plural"]
         spec["apiConfig"]["kind"] = "Widget"
         plural, obj = "widgets", {**RF_OBJ, "kind": "Widget"}
+    if not has_return:
+        del spec["return"]
     if crud == "okReadonly":
         spec["apiConfig"]["readonly"] = True
     if crud in ("deletedAbsent", "deleting"):
@@ -505,7 +507,8 @@ class Impl:
             return run_unit(c["ps"], self.env_mod, sched)
         if mode == "vf":
             return run_vf(c["ps"], self.tracer, c["ret"], sched)
-        return run_rf(c["pre"], c["post"], c["crud"], self.tracer, c.get("lookup", "notNeeded"), sched)
+        return run_rf(c["pre"], c["post"], c["crud"], self.tracer, c.get("lookup", "notNeeded"), sched,
+                      c.get("ret", True))
 
     def safe_run(self, mode, c):
         try:
@@ -591,7 +594,7 @@ class Impl:
         if e_post == "unconstrained":
             return None
         if e_post == "continue":
-            if got["c"] != "ok" or not ran_return:
+            if got["c"] != "ok" or (not ran_return and c.get("ret", True)):
                 return f"rf: postconditions continue but outcome {got['c']} ({got.get('m')!r}), trace {trace}"
             return None
         bad = judge(post, got, "rf postconditions")
@@ -642,7 +645,8 @@ def run(tier: str) -> int:
         cases.append(("rf", {"pre": pre, "post": post, "shape": f"{s1}/{s2}",
                              "crud": r.choice(["okReadonly", "okMatch", "okMatch", "createRetry", "deletedAbsent", "deletedAbsent",
                                                "deleting"]),
-                             "lookup": r.choice(["notNeeded", "notNeeded", "found", "found", "unknownKind"])}))
+                             "lookup": r.choice(["notNeeded", "notNeeded", "found", "found", "unknownKind"]),
+                             "ret": r.random() < 0.7}))
     exhaustive = 0
     if tier == "thorough":
         # every kind assignment × truth assignment for length ≤ 4 (ValueFunction), ≤ 3 (ResourceFunction pre / post)
@@ -660,7 +664,8 @@ def run(tier: str) -> int:
                         cases.append(("rf", {"pre": mk(0), "post": [], "shape": "exhaustive/none", "crud": "okMatch",
                                              "lookup": ["notNeeded", "found", "unknownKind"][exhaustive % 3]}))
                         cases.append(("rf", {"pre": [], "post": mk(10), "shape": "none/exhaustive",
-                                             "crud": ["okMatch", "deletedAbsent", "okReadonly"][exhaustive % 3]}))
+                                             "crud": ["okMatch", "deletedAbsent", "okReadonly"][exhaustive % 3],
+                                             "ret": exhaustive % 2 == 0}))
                         exhaustive += 2
 
     def req_of(mode, c):
@@ -669,7 +674,7 @@ def run(tier: str) -> int:
         if mode == "vf":
             return {"op": "vf", "pre": wire_of(c["ps"]), "ret": c["ret"]}
         return {"op": "rf", "pre": wire_of(c["pre"]), "post": wire_of(c["post"]), "crud": c["crud"],
-                "lookup": c.get("lookup", "notNeeded")}
+                "lookup": c.get("lookup", "notNeeded"), "ret": c.get("ret", True)}
 
     # a share of the prepared Functions is reconciled several times, with inputs that are ==-equal in Python but of
     # another JSON type (true/1, false/0, 5/5.0), in both orders
@@ -708,6 +713,7 @@ def run(tier: str) -> int:
         ck.count(f"mode:{mode}")
         if mode == "rf":
             ck.count(f"plural-lookup:{c.get('lookup', 'notNeeded')}")
+            ck.count(f"rf-return:{'yes' if c.get('ret', True) else 'none'}")
         ck.count(f"shape:{c['shape']}")
         ck.count(f"outcome:{got['c']}")
         nfalse = sum(1 for ps in lists for p in ps if p["a"] == "f")
